@@ -25,7 +25,7 @@ def write_evidence(prop, tier, seed, cov, assumptions, wall, nviol):
     }
     tmp = os.path.join(VERIF, "evidence", ".%s.json.%d" % (prop, os.getpid()))
     with open(tmp, "w") as f:
-        json.dump(ev, f, indent=1, default=core.jdefault)
+        json.dump(core.jsonable(ev), f, indent=1, default=core.jdefault)
     os.replace(tmp, os.path.join(VERIF, "evidence", prop + ".json"))
 
 
@@ -33,7 +33,7 @@ def write_replay(prop, seed, n, payload):
     os.makedirs(os.path.join(VERIF, "replays"), exist_ok=True)
     p = os.path.join(VERIF, "replays", "%s-%s-%d.json" % (prop, seed, n))
     with open(p, "w") as f:
-        json.dump(payload, f, indent=1, default=core.jdefault)
+        json.dump(core.jsonable(payload), f, indent=1, default=core.jdefault)
     return p
 
 
@@ -111,7 +111,7 @@ def main():
             print("violation keys:", collections.Counter(str(v["key"]) + " | " + v["what"] for v in res.violations).most_common(40), file=sys.stderr)
             print("disagreement streams:", collections.Counter(d["stream"] for d in res.disagreements).most_common(40), file=sys.stderr)
             with open("/tmp/verif-debug-%s.json" % prop, "w") as fdbg:
-                json.dump({"violations": res.violations[:300], "disagreements": res.disagreements[:300]}, fdbg, indent=1, default=core.jdefault)
+                json.dump(core.jsonable({"violations": res.violations[:300], "disagreements": res.disagreements[:300]}), fdbg, indent=1, default=core.jdefault)
 
         # ---- decide ------------------------------------------------------------------------------
         known = findings.open_for(prop)
